@@ -913,6 +913,13 @@ func (env *Env) call(n *ast.CallExpr) TV {
 			return TV{T: strings.ReplaceAll(body, bv, sk), Ty: boolT}
 		}
 		return TV{T: fmt.Sprintf("(forall ((%s Iface)) %s)", bv, body), Ty: boolT}
+	case "implements": // implements(x, Iface): the dynamic type of x implements the interface
+		v := env.eval(n.Args[0])
+		it := env.typeExpr(n.Args[1])
+		if it == nil || !types.IsInterface(it) {
+			return env.fail("implements: unknown interface %s", exprString(n.Args[1]))
+		}
+		return TV{T: env.e.implPred(it, "(i.type "+v.T+")"), Ty: boolT}
 	case "ishandler": // dynamic type of m implements p9.handler
 		v := env.eval(n.Args[0])
 		it := env.lookupType("p9.handler")
